@@ -44,6 +44,9 @@ namespace occa {
       // Token before the pair started
       token_t *beforePairToken;
 
+      // Closing parentheses of the C-style casts found so far
+      std::vector<token_t*> castEndTokens;
+
       scopedStateList scopedStates;
       expressionScopedState *scopedState;
 
@@ -60,6 +63,9 @@ namespace occa {
 
       exprNode& lastOutput();
       exprOpNode& lastOperator();
+
+      // Is [token] the ')' of a C-style cast which still waits for its operand?
+      bool closedCast(token_t *token);
 
       void pushOutput(exprNode *expr);
       void pushOperator(operatorToken *token);
